@@ -405,9 +405,16 @@ impl SystemFunctionCall {
             SystemFunctionKind::Write(_) => None,
             SystemFunctionKind::Assert { .. } => None,
             SystemFunctionKind::Finish => None,
-            SystemFunctionKind::Signed(x) | SystemFunctionKind::Unsigned(x) => {
-                x.0.eval_value(context)
-            }
+            // The Value's own flag drives later extensions (const
+            // assignment, if-expression, ==), so it must follow the cast.
+            SystemFunctionKind::Signed(x) => x.0.eval_value(context).map(|mut v| {
+                v.set_signed(true);
+                v
+            }),
+            SystemFunctionKind::Unsigned(x) => x.0.eval_value(context).map(|mut v| {
+                v.set_signed(false);
+                v
+            }),
         }
     }
 
